@@ -20,20 +20,26 @@ class StubS3:
         with LOCK:
             r = RECORD[kw["Key"]]
             r["n"] += 1
-            r["calls"].append(["crt", 0, r["n"]])
+            r["calls"].append(["crt", 0, r["n"] - r["base"]])
             return {"UploadId": f"id{r['n']}"}
 
     def upload_part(self, **kw):
-        uid = kw["UploadId"]
         with LOCK:
-            RECORD[kw["Key"]]["calls"].append(["up", int(kw["PartNumber"]), int(uid[2:]) if uid.startswith("id") and uid[2:].isdigit() else 0])
+            RECORD[kw["Key"]]["calls"].append(["up", int(kw["PartNumber"]), _rel(kw["Key"], kw["UploadId"])])
         return {"ETag": f"e{kw['PartNumber']}"}
 
     def complete_multipart_upload(self, **kw):
-        uid = kw["UploadId"]
         with LOCK:
-            RECORD[kw["Key"]]["calls"].append(["complete", 0, int(uid[2:]) if uid.startswith("id") and uid[2:].isdigit() else 0])
+            RECORD[kw["Key"]]["calls"].append(["complete", 0, _rel(kw["Key"], kw["UploadId"])])
         return {"ETag": "final"}
+
+
+def _rel(key, uid):
+    """upload ids are never reused by the store; the event numbers the ids issued DURING the round 1, 2, ...; an id from an earlier
+    upload of the same object (or anything else) is 99 - no upload of this round"""
+    r = RECORD[key]
+    k = int(uid[2:]) if uid.startswith("id") and uid[2:].isdigit() else 0
+    return k - r["base"] if k > r["base"] else 99
 
 
 from odc.geo.cog._s3 import MultiPartUpload  # noqa: E402
@@ -61,8 +67,10 @@ def main(rounds, seed):
     try:
         for k in range(rounds):
             n = rng.choice([2, 3, 4, 6])
-            key = f"obj{k}"
-            RECORD[key] = {"n": 0, "calls": []}
+            # the same object is written again now and then (a re-run / overwrite on a long-lived cluster): each upload is coordinated on its own
+            key = f"obj{rng.randrange(k)}" if k and rng.random() < 0.4 else f"obj{k}"
+            issued = RECORD[key]["n"] if key in RECORD else 0
+            RECORD[key] = {"n": issued, "base": issued, "calls": []}
             mpu = MPU("bkt", key)
             outcomes = []
             try:
